@@ -192,6 +192,9 @@ def der_serialise(nodes):
     from vf.ref import der_ref
     out = b""
     for tag, kids, body, wrap in nodes:
+        if tag is None:            # raw bytes placed as they are (an element whose own length field lies about its content)
+            out += body
+            continue
         if kids is not None:
             body = wrap + der_serialise(kids)
         out += bytes([tag]) + der_ref.enc_len(len(body)) + body
@@ -234,6 +237,14 @@ def der_tree_mutations(data):
             for v in (0, 2, 3, 127, 128, 255):
                 yield "tree:int_%d" % v, edit(lambda l, i, v=v: l.__setitem__(i, [0x02, None, bytes([v]) if v < 128 else b"\x00" + bytes([v]), b""]))
         yield "tree:empty_body", edit(lambda l, i: l.__setitem__(i, [tag, None, b"", b""]))
+        if kids is None and body:
+            from vf.ref import der_ref as _dr
+            # the element's own length field promises more than is there, while every ENCLOSING length is consistent with the bytes present
+            for keep in (1, 2, len(body) - 1):
+                if 0 < keep < len(body):
+                    yield "tree:inner_len_overrun_keep%d" % min(keep, 3), edit(lambda l, i, keep=keep: l.__setitem__(i, [None, None, bytes([tag]) + _dr.enc_len(len(body)) + body[:keep], b""]))
+            yield "tree:inner_len_overrun_zero_byte", edit(lambda l, i: l.__setitem__(i, [None, None, bytes([tag]) + _dr.enc_len(max(2, len(body))) + b"\x00", b""]))
+            yield "tree:inner_len_overrun_ff_byte", edit(lambda l, i: l.__setitem__(i, [None, None, bytes([tag]) + _dr.enc_len(max(2, len(body))) + b"\xff", b""]))
         yield "tree:drop", edit(lambda l, i: l.__delitem__(i))
         yield "tree:dup", edit(lambda l, i: l.insert(i, copy.deepcopy(l[i])))
         yield "tree:append_null", edit(lambda l, i: l.insert(i + 1, [0x05, None, b"", b""]))
